@@ -111,6 +111,9 @@ def run(ctx):
     _dirs = ("cardillo/interactions/", "cardillo/force_laws/", "cardillo/forces/", "cardillo/actuators/")
     _c26.r1_keys(ctx, _c26.find_sites(ctx), rule="C07.R10", want_cls=lambda ci: ci.rel.startswith(_dirs))
     _c26.handmade_memo(ctx, "C07.R10", lambda rel: rel.startswith(_dirs))
+    rep.rule("C07.R12", "a force law re-derives its DOF tables on EVERY assembly: it runs its subsystem's assembler_callback unconditionally before copying qDOF / uDOF (a stale copy makes System.E_pot read, and System.h / W_c scatter to, coordinates that are no longer the element's)", 2)
+    from .c14 import r13_subsystem_first
+    r13_subsystem_first(ctx, rule="C07.R12", want=lambda rel: rel.startswith("cardillo/force_laws/"), floor=2)
     rep.rule("C07.R11", "System.h adds each element's generalized force UNBUFFERED on the element's velocity DOFs (np.add.at): the DOF table of an interaction between two points of one body / rod repeats indices, and a fancy-index `+=` keeps one summand per index - the element's power in System.h is then not -dE_pot/dt and the force form disagrees with W_c la_c", 1)
     system_force_accumulation(ctx)
     rep.rule("C07.R1", "E_pot dispatch totality", 5)
@@ -334,4 +337,9 @@ NEUTRAL += [
 MUTANTS += [
     dict(id="c07-r11-seed", canary=True, what="[seeded by sub-agent] System.h accumulates with a buffered fancy-index += (fix 91ee499a reverted)", file='cardillo/system.py',
          old="np.add.at(h, contr.uDOF, contr.h(t, q[contr.qDOF], u[contr.uDOF]))", new="h[contr.uDOF] += contr.h(t, q[contr.qDOF], u[contr.uDOF])", expect="C07.R11"),
+]
+
+MUTANTS += [
+    dict(id="c07-r12-seed", canary=True, what="[seeded by sub-agent] ScalarForceLawBase.assembler_callback assembles its subsystem only if it has no qDOF yet (stale DOF tables on every later assembly)", file='cardillo/force_laws/_base.py',
+         old="    def assembler_callback(self):\n        self.subsystem.assembler_callback()\n", new="    def assembler_callback(self):\n        if not hasattr(self.subsystem, \"qDOF\"):\n            self.subsystem.assembler_callback()\n", expect="C07.R12"),
 ]
